@@ -2,6 +2,7 @@
   C14 — JSON output is faithful and reversible.
 -/
 import ZlProofs.Lemmas.JsonString
+import ZlProofs.Lemmas.Utf8
 import ZlModel.Codec
 import ZlModel.Generated.Tables
 import ZlModel.Generated.Registry
@@ -115,6 +116,19 @@ theorem ascii_details_roundtrip (html : Bool) (details : Bytes) (h : ∀ b ∈ d
   unfold sanitize
   rw [sanitize_ascii _ _ h]
   simp
+
+/-- **The model's copy-through of a well-formed multi-byte sequence is what `unquoteBytes` does**: the real code
+    decodes the rune (`utf8.DecodeRune`) and re-encodes it (`utf8.EncodeRune`); for every head the decoder accepts
+    (width ≥ 2) that yields exactly the bytes consumed, and the decoder consumed exactly `width` of them.
+    This discharges inside the model what used to be an assumption about UTF-8 (overlong forms, surrogates and
+    values above U+10FFFF are all excluded by `width`'s ranges). -/
+theorem copy_through_is_decode_encode (b : Nat) (rest : Bytes) (hw : 2 ≤ Zl.Thresholds.width (b :: rest)) :
+    encodeRune (Zl.Thresholds.decodeRune (b :: rest)).1 = (b :: rest).take (Zl.Thresholds.width (b :: rest)) ∧
+    (Zl.Thresholds.decodeRune (b :: rest)).2 = Zl.Thresholds.width (b :: rest) :=
+  Zl.Utf8.encode_decode b rest hw
+
+example : 2 ≤ Zl.Thresholds.width [0xF4, 0x8F, 0xBF, 0xBF, 0x41] ∧ Zl.Thresholds.width [0xED, 0xA0, 0x80] = 1
+    ∧ Zl.Thresholds.width [0xC0, 0x80] = 1 ∧ Zl.Thresholds.width [0xF4, 0x90, 0x80, 0x80] = 1 := by decide
 
 /-- the replacement is visible and bounded: a lone continuation byte becomes EF BF BD, a valid sequence is kept -/
 example : sanitize [0x41, 0xFF, 0x42] = [0x41, 0xEF, 0xBF, 0xBD, 0x42] ∧ sanitize [0xC3, 0xA9] = [0xC3, 0xA9]
